@@ -290,6 +290,8 @@ CHECKS["C11"] = {
         {"name": "httpserver", "pkg": "pkg/object/httpserver", "test": "TestVerifC11mux", "gomaxprocs": 1, "workers": 4, "inject": [HTTPRIG],
          "instrument": [{"file": "pkg/object/httpserver/mux.go", "imports": {"sync/atomic": "vatomic"}}]},
         RUNTIMEUNIT,
+        # the RateLimiter filter's hot update (state kept for an unchanged rule, a changed effective policy applied): harness shared with C09
+        {"name": "rlfilter", "pkg": "pkg/filters/ratelimiter", "test": "TestVerifC09filter", "workers": 8, "inject": [["pkg/filters/ratelimiter", "harness/C09/rlfilter"]]},
     ],
 }
 
